@@ -6,7 +6,7 @@ references to it, each with the static mutexes held at the reference."""
 import re
 from .frontend import kids, walk, qn, qtype, dtype, pos, in_repo
 from .effects import static_vars, classify_static, var_refs, is_static_storage, _is_const_object
-from .lock import LockRegions, static_mutex_keys
+from .lock import LockRegions, static_mutex_keys, entry_held
 from .callgraph import fname
 
 
@@ -35,6 +35,7 @@ def entries(ctx):
             return True
         m = re.match(r'^(\w+)#(0x[0-9a-f]+)$', mk)
         return bool(m and m.group(2) in smv)
+    eh = entry_held(G, is_smk)
     ent = {}
     for key, d in svars.items():
         ent[key] = dict(decl=d, qn=key[0], pos=pos(d), refs=[], type=qtype(d),
@@ -50,7 +51,7 @@ def entries(ctx):
                 continue
             if lr is None:
                 lr = LockRegions(u, f)
-            held = sorted(set(mk for (mk, g) in lr.held_at(node) if is_smk(mk)))
+            held = sorted(set(mk for (mk, g) in lr.held_at(node) if is_smk(mk)) | eh.get(fk, frozenset()))
             ent[key]['refs'].append(dict(fn=fk, node=node, write=w, held=held))
     out = []
     for key, e in ent.items():
